@@ -98,28 +98,35 @@ func driveA(run *hx.Run, model *hx.Model, u *universe) {
 // exhaustiveA: all placements of two keys x all sequences of two operations x
 // the modelled strategies, fault-free and with every single call failing.
 func exhaustiveA(run *hx.Run, model *hx.Model, u *universe) {
-	ops := []string{"get 0", "get 1", "getc 0", "put 0 7", "fm 0 1", "fm 1", "caps"}
+	ops := []string{"get 0", "get 1", "getc 0", "put 0 0", "fm 0 1", "fm 1", "caps"}
 	wheres := []string{"A", "B", "AB", "-"}
 	strats := [][2]string{{"local", "local"}, {"noop", "noop"}}
 	if run.Thorough() {
 		strats = append(strats, [2]string{"local", "noop"}, [2]string{"dedup", "dedup"}, [2]string{"climit", "climit"}, [2]string{"queued", "queued"})
 	}
+	// harness-only settings: plain; streaming replicas read chunk by chunk with Puts failing at commit time
+	modes := []string{"0", "0 1 1 chunks"}
+	if run.Thorough() {
+		modes = append(modes, "1 1 0 reader", "1 1 1 slice")
+	}
 	count := 0
 	for _, st := range strats {
-		for _, w0 := range wheres {
-			for _, w1 := range wheres {
-				for _, o1 := range ops {
-					for _, o2 := range ops {
-						if run.Findings() >= 20 {
-							return
-						}
-						base := []string{fmt.Sprintf("#cfg a %s %s 0", st[0], st[1]),
-							"place 0 " + w0 + " 1 2", "place 1 " + w1 + " 3 3", o1, o2, "get 0"}
-						name := fmt.Sprintf("exh/%s-%s/%d", st[0], st[1], count)
-						count++
-						o := handle(run, model, u, runCaseA, name, base)
-						for j, p := range positions(o.counts) {
-							handle(run, model, u, runCaseA, fmt.Sprintf("%s/f%d", name, j), withFaults(base, fmt.Sprintf("fault %s 14", p)))
+		for _, md := range modes {
+			for _, w0 := range wheres {
+				for _, w1 := range wheres {
+					for _, o1 := range ops {
+						for _, o2 := range ops {
+							if run.Findings() >= 20 {
+								return
+							}
+							base := []string{fmt.Sprintf("#cfg a %s %s %s", st[0], st[1], md),
+								"place 0 " + w0 + " 0 0", "place 1 " + w1 + " 0 0", o1, o2, "get 0"}
+							name := fmt.Sprintf("exh/%s-%s/%d", st[0], st[1], count)
+							count++
+							o := handle(run, model, u, runCaseA, name, base)
+							for j, p := range positions(o.counts) {
+								handle(run, model, u, runCaseA, fmt.Sprintf("%s/f%d", name, j), withFaults(base, fmt.Sprintf("fault %s 14", p)))
+							}
 						}
 					}
 				}
